@@ -30,7 +30,8 @@ ASSUMPTIONS = [
     'objects returned by accessors are not mutated by the harness',
 ]
 ANCHORS = ['Table.copy', 'Table.filter', 'Table.transform', 'Table.subsample', 'Table._get_sparse_data']
-REQUIRED = ['degenerate_argument_calls', 'noninplace_calls', 'inplace_equivalence_checked',
+REQUIRED = ['refused_inplace_twins_checked',
+            'update_ids_collision_requests', 'degenerate_argument_calls', 'noninplace_calls', 'inplace_equivalence_checked',
             'isolation_batteries', 'fault_injections', 'layout_csc_seen',
             'layout_unsorted_seen', 'args_tables_checked',
             'op_filter', 'op_transform', 'op_norm', 'op_pa', 'op_rankdata',
@@ -222,6 +223,14 @@ def build_call(ctx, r, spec, op, axis):
         args = {'axis': ax}
         return (lambda t, ip: t.remove_empty(axis=ax, inplace=ip)), args, \
             tables
+    if op == 'update_ids' and len(ids) >= 2 and r.random() < .25:
+        # a partial renaming onto a name that another id keeps: cannot be
+        # carried out
+        a, b = r.sample(ids, 2)
+        args = {'map': 'collides-with-kept-id', 'from': a, 'to': b}
+        ctx.count('update_ids_collision_requests')
+        return (lambda t, ip: t.update_ids({a: b}, axis=axis, strict=False,
+                                           inplace=ip)), args, tables
     if op == 'update_ids':
         m = {i: 'new_%d_%s' % (k, i) for k, i in enumerate(ids)}
         args = {'map': 'lengthen'}
@@ -344,6 +353,16 @@ def run_case(ctx, index):
             ZeroDivisionError) as e:
         # documented refusals (empty results of merge, empty table, ...)
         oracles.unchanged(t, before, 'C07/refused-but-modified', desc)
+        if op in INPLACE_OPS:
+            # the in-place variant of a request that cannot be carried out
+            # is refused as well, and a refused call has changed nothing
+            try:
+                call(twin, True)
+            except (ctx.TableException, ctx.DisjointIDError, IndexError,
+                    ZeroDivisionError):
+                oracles.unchanged(twin, before, 'C07/refused-inplace-'
+                                  'modified-receiver/' + op, desc)
+                ctx.count('refused_inplace_twins_checked')
         ctx.skip('refused:%s:%s' % (op, type(e).__name__))
         return
     ctx.count('noninplace_calls')
@@ -366,7 +385,11 @@ def run_case(ctx, index):
         if r2 is not twin:
             raise Violation('C07/inplace-not-receiver', 'in-place %s did not '
                             'return the receiver; case=%r' % (op, desc))
-        d = snap.diff(snap.snap(twin), res_snaps[0])
+        # operations that sum floats (norm divides by a vector total; a
+        # user transform may) can add in another order on a copy whose
+        # entries were put in order: equal to the last few ulps
+        loose = 1e-12 if op in ('norm', 'transform', 'rankdata') else None
+        d = snap.diff(snap.snap(twin), res_snaps[0], rtol=loose)
         if d:
             raise Violation('C07/inplace-differs/' + op, 'in-place result '
                             'differs from the copy variant: %s; case=%r' %
